@@ -11,6 +11,18 @@ _DEPTH = [0]
 NAN_TRANSPARENT = ("Add", "Subtract", "Multiply", "Divide", "Negate")
 
 
+
+def _r(x):
+    """repr that survives integers beyond the interpreter's int->str digit limit (which is left at
+    its default on purpose: it is part of the environment the code under test runs in)"""
+    try:
+        return repr(x)
+    except ValueError:
+        try:
+            return f"<{type(x).__name__} of about {abs(x).bit_length()} bits>"
+        except Exception:
+            return f"<{type(x).__name__}>"
+
 def attach_evaluate(prop="C05"):
     from mathy_core import expressions as E
 
@@ -150,7 +162,7 @@ def decide(prop, node, sh, context, res, exc):
     kinds = S.kinds(sh)
     names = S.variables(sh)
     ctx = context or {}
-    w = {"tree": S.to_json(sh), "text": S.text_of(node), "context": {k: repr(v) for k, v in ctx.items()} if isinstance(ctx, dict) else repr(ctx)}
+    w = {"tree": S.to_json(sh), "text": S.text_of(node), "context": {k: _r(v) for k, v in ctx.items()} if isinstance(ctx, dict) else _r(ctx)}
 
     def bad(key, what, got):
         w2 = dict(w)
@@ -170,7 +182,7 @@ def decide(prop, node, sh, context, res, exc):
             return
         if not isinstance(exc, ValueError):
             bad("eval/missing-variable", "a variable without a value is not reported as ValueError",
-                f"{'returned ' + repr(res) if exc is None else 'raised ' + type(exc).__name__} with {missing} unbound")
+                f"{'returned ' + _r(res) if exc is None else 'raised ' + type(exc).__name__} with {missing} unbound")
         else:
             rec.nontrivial(("eval-missing", sh, tuple(sorted(missing))))
         return
@@ -224,7 +236,7 @@ def decide(prop, node, sh, context, res, exc):
             _compare(rec, bad, sh, res, want, int_only, "equation")
         else:
             if not isinstance(exc, ValueError):
-                bad("eval/equation-false-no-error", "an equation whose sides differ did not raise", f"returned {res!r}" if exc is None else f"raised {type(exc).__name__}")
+                bad("eval/equation-false-no-error", "an equation whose sides differ did not raise", f"returned {_r(res)}" if exc is None else f"raised {type(exc).__name__}")
             else:
                 rec.nontrivial(("eval-eq-false", sh, tuple(sorted(sigma.items()))))
         return
@@ -237,7 +249,7 @@ def decide(prop, node, sh, context, res, exc):
                 rec.arm("eval:division-by-zero")
                 isnan = exc is None and isinstance(res, float) and math.isnan(res) or (exc is None and _isnan(res))
                 if not isnan:
-                    bad("eval/division-by-zero", "division by zero does not yield NaN", f"returned {res!r}" if exc is None else f"raised {type(exc).__name__}: {str(exc)[:60]}")
+                    bad("eval/division-by-zero", "division by zero does not yield NaN", f"returned {_r(res)}" if exc is None else f"raised {type(exc).__name__}: {str(exc)[:60]}")
                 else:
                     rec.nontrivial(("eval-div0", sh, tuple(sorted(sigma.items()))))
                 return
@@ -297,9 +309,9 @@ def _compare(rec, bad, sh, res, want, int_only, what):
             if not want.approx and abs(want.v) > Fraction(10) ** 150:
                 rec.skip("eval: float overflow region")
                 return
-            bad(f"eval/{regime}/non-finite", "evaluation returned a non-finite number for a defined expression", f"returned {res!r}, exact value {str(wv)[:60]}")
+            bad(f"eval/{regime}/non-finite", "evaluation returned a non-finite number for a defined expression", f"returned {_r(res)}, exact value {_r(wv)[:60]}")
         else:
-            bad(f"eval/{regime}/type", "evaluation did not return a number", f"returned {res!r}")
+            bad(f"eval/{regime}/type", "evaluation did not return a number", f"returned {_r(res)}")
         return
     if int_only:
         # exact integers of any magnitude; a numpy integer is accepted only if numerically equal
@@ -307,7 +319,7 @@ def _compare(rec, bad, sh, res, want, int_only, what):
             rec.skip("eval: approximate oracle value in integer regime")
             return
         if rv != want.v:
-            bad("eval/int/wrong-value", "integer arithmetic did not return the exact result", f"returned {res!r} ({type(res).__name__}), exact value {want.v}")
+            bad("eval/int/wrong-value", "integer arithmetic did not return the exact result", f"returned {_r(res)} ({type(res).__name__}), exact value {_r(want.v)[:80]}")
             return
         rec.arm("eval:int:resulttype:" + _num_class(res))
     else:
@@ -323,7 +335,7 @@ def _compare(rec, bad, sh, res, want, int_only, what):
         if want.approx:
             tol = 1e-9 * sc + 1e-300
         if d > tol:
-            bad("eval/float/wrong-value", "floating-point evaluation is off by more than rounding", f"returned {res!r}, exact value {float(wv)!r} (scale {sc:.3g})")
+            bad("eval/float/wrong-value", "floating-point evaluation is off by more than rounding", f"returned {_r(res)}, exact value {float(wv)!r} (scale {sc:.3g})")
             return
     if ops >= 1:
         rec.nontrivial(("eval", sh, what, regime))
